@@ -12,6 +12,7 @@ import (
 	"sort"
 	"strconv"
 	"strings"
+	"time"
 )
 
 // History is one test case: integer-coded config and ops (shared with the Coq model's decoder),
@@ -171,6 +172,7 @@ func Main(name string, comp Component) {
 	report := fs.String("report", "", "report output file (json)")
 	replay := fs.String("replay", "", "replay the histories of this trace file instead of generating")
 	start := fs.Int("start", 0, "first history index (sharding)")
+	hangSecs := fs.Int("hang", 120, "seconds after which a single history counts as hung")
 	_ = fs.Parse(os.Args[1:])
 
 	var hs []History
@@ -220,7 +222,38 @@ func Main(name string, comp Component) {
 	for i := range hs {
 		h := &hs[i]
 		h.Obs = nil
-		mons, ok := comp.Run(h)
+		// watchdog: a history that does not finish (e.g. a balancer loop that never terminates) is a violation of
+		// whatever property the component serves; report it and stop this process
+		type runRes struct {
+			mons []Mon
+			ok   bool
+		}
+		resCh := make(chan runRes, 1)
+		go func() {
+			m, k := comp.Run(h)
+			resCh <- runRes{m, k}
+		}()
+		var mons []Mon
+		var ok bool
+		select {
+		case r := <-resCh:
+			mons, ok = r.mons, r.ok
+		case <-time.After(time.Duration(*hangSecs) * time.Second):
+			rep.Mons = append(rep.Mons, Mon{Prop: "*", Idx: h.Idx, Step: -1, Msg: fmt.Sprintf("history %d did not finish within %d s (hang)", h.Idx, *hangSecs)})
+			rep.MonSamples = append(rep.MonSamples, map[string]interface{}{"mon": rep.Mons[len(rep.Mons)-1], "history": comp.Describe(h), "line": h.Line()})
+			rep.Distinct = len(distinct)
+			rep.Stats = stats.Counts
+			js, _ := json.MarshalIndent(rep, "", " ")
+			if w != nil {
+				w.Flush()
+			}
+			if *report != "" {
+				_ = os.WriteFile(*report, js, 0o644)
+			} else {
+				fmt.Println(string(js))
+			}
+			os.Exit(0)
+		}
 		if !ok {
 			rep.Invalid = append(rep.Invalid, h.Idx)
 			continue
